@@ -134,6 +134,15 @@ def flow_values(kind, k):
     return list(range(1, k + 1))
 
 
+NONE_OK = ("store", "store_each", "freq", "freq_run", "run_store", "run_map", "run_head", "run_none")
+
+
+def flow_values_with_none(kind, k):
+    """The same flow with None at every even position, first included (elements that do not compute
+    with their values): None is a value, never the end of a flow or of a block."""
+    return [None if i % 2 == 0 else v for i, v in enumerate(flow_values(kind, k))]
+
+
 def values_in_result(kind, result):
     """The flow values one result of a value-revealing element shows, else None."""
     if kind == "store":
